@@ -41,8 +41,29 @@ SHAPES = [
     ("extraBeforeRule", "src/enc/lzma2_writer.rs", r"pub fn get_extra_size_before\(dict_size: u32\) -> u32 \{ COMPRESSED_SIZE_MAX\.saturating_sub\(dict_size\) \}", 1, "extra_size_before = 64 KiB - dict (saturating)"),
 ]
 
+MT_FILES = ["src/enc/lzma2_writer_mt.rs", "src/lzip/writer_mt.rs", "src/lzma2_reader_mt.rs", "src/lzip/reader_mt.rs"]
+MT_SHAPES = []
+for k, f in enumerate(MT_FILES):
+    MT_SHAPES += [
+        (f"workerClamp{k}", f, r"let max_workers = num_workers\.clamp\(1, 256\);", 1, "requested worker count clamped to 1..=256"),
+        (f"workerCapField{k}", f, r"[{,] max_workers, ", 1, "the struct field is initialised with the clamped value"),
+        (f"workerCapNoOther{k}", f, r"max_workers: (?!u32)", 0, "no other initialisation of max_workers"),
+        (f"spawnCondition{k}", f, r"if queue_len > 0 && active_workers == spawned_workers && spawned_workers < self\.max_workers \{ self\.spawn_worker_thread\(\); \}", 1, "a worker is spawned only below the cap"),
+        (f"spawnOnlyThere{k}", f, r"\.spawn_worker_thread\(\)", 1 if k == 3 else 2, "spawn_worker_thread is called from the constructor (LZIPReaderMT: not there) and from the guarded place only"),
+    ]
+
 errs = []
 vals = []
+mtvals = []
+for name, path, pat, hits, doc in MT_SHAPES:
+    try:
+        n = len(re.findall(pat, src(path)))
+    except FileNotFoundError:
+        n = -1
+    ok = n == hits
+    if not ok:
+        errs.append(f"{path}: shape `{name}` ({doc}) matched {n} time(s), expected {hits}")
+    mtvals.append((name, ok, doc, path))
 for name, path, pat, hits, doc in SHAPES:
     try:
         n = len(re.findall(pat, src(path)))
@@ -57,11 +78,15 @@ text = "/- GENERATED by tools/extract_shapes.py from /repo's sources on every ru
 for name, ok, doc, path in vals:
     text += f"/-- {path}: {doc} -/\ndef {name} : Bool := {'true' if ok else 'false'}\n"
 text += "\n/-- every transcribed statement of the encoder window is still written as the model says -/\ndef allOk : Bool := " + " && ".join(n for n, _, _, _ in vals) + "\n"
+text += "\n"
+for name, ok, doc, path in mtvals:
+    text += f"/-- {path}: {doc} -/\ndef {name} : Bool := {'true' if ok else 'false'}\n"
+text += "\n/-- the worker cap of the four multi-threaded types is still written as the MT model assumes -/\ndef mtAllOk : Bool := " + " && ".join(n for n, _, _, _ in mtvals) + "\n"
 text += f"\n/-- number of statements that no longer match -/\ndef extractionErrors : Nat := {len(errs)}\n\nend LzmaVerif.ShapeGen\n"
 old = open(OUT).read() if os.path.exists(OUT) else ""
 if old != text:
     open(OUT, "w").write(text)
 for e in errs:
     print("shape mismatch:", e, file=sys.stderr)
-print(f"window statement shapes: {sum(1 for v in vals if v[1])}/{len(vals)} match, changed={old != text}")
+print(f"window statement shapes: {sum(1 for v in vals if v[1])}/{len(vals)} match, MT worker-cap shapes: {sum(1 for v in mtvals if v[1])}/{len(mtvals)} match, changed={old != text}")
 sys.exit(3 if errs else 0)
